@@ -77,12 +77,29 @@ def _mutate(tree, op, idx):
 
 
 def _consulted(prop):
+    """Modules the property's check consults, restricted to the property's
+    own anchor files (properties.jsonl) so that the population consists of
+    mutants of the code the property is about."""
+    import json
     from . import props
+    from .report import VERIF
     repo = Repo()
     col = Collector(prop)
     props.PROPS[prop].run(repo, col)
-    return sorted(m for m in repo.consulted if m in repo.modules and
-                  m != PKG)
+    consulted = set(m for m in repo.consulted if m in repo.modules
+                    and m != PKG)
+    anchors = set()
+    try:
+        for line in open(os.path.join(VERIF, "properties.jsonl")):
+            rec = json.loads(line)
+            if rec["id"] == prop:
+                for f in rec["anchors"]["files"]:
+                    if f.startswith("src/") and f.endswith(".py"):
+                        anchors.add(f[4:-3].replace("/", "."))
+    except OSError:
+        pass
+    sel = consulted & anchors if anchors else consulted
+    return sorted(sel or consulted)
 
 
 def _run_mutant(args):
